@@ -165,6 +165,27 @@ def check_roundtrips(res, spec, only_chain=None):
             res.note("rt", f"{c}:{t}:equal")
 
 
+    # "identifiers and serialised forms are functions of content": a twin built from the same spec that has been EXPORTED
+    # (GFF3 rows, qualifier export, BED) before it is serialised must still be indistinguishable from the untouched origin
+    if only_chain is None or only_chain == ["exported"]:
+        o2 = lib.outcome(W.build, spec)
+        if o2[0] == "ok":
+            twin = o2[1]
+            for name in ("to_gff", "export_qualifiers", "to_bed12", "to_gff", "export_qualifiers"):
+                fn = getattr(twin, name, None)
+                if fn is not None:
+                    lib.outcome(lambda: list(fn()) if name == "to_gff" else fn())
+            res.trans()
+            case = {"part": "rt", "spec": spec, "chain": ["exported"]}
+            probs, _ = _compare(origin, oc, twin)
+            if probs:
+                res.note("rt", f"{c}:exported:differs")
+                res.deviation("roundtrip", case, probs, "exported twin equal to origin", sig=f"rt:{c}:exported:{_first_key(probs)}",
+                              cls=c, step="exported", depth=1, pk=pkind(spec))
+            else:
+                res.note("rt", f"{c}:exported:equal")
+
+
 # ---------------------------------------------------------------------------------------------------------------------
 # Part 3: sensitivity of identifiers
 # ---------------------------------------------------------------------------------------------------------------------
